@@ -183,7 +183,14 @@ neg = [
     ("string-less", 'F.S < F.R', 'f.S < f.R'),
     ("string-greater-equal", 'F.S >= F.R', 'f.S >= f.R'),
     ("string-not-equal", 'F.S != F.R', 'f.S != f.R'),
+    # short-circuit with a bool held in an interface (map[string]interface{} entry): the failing right operand is NOT evaluated
+    ("short-circuit-or-with-an-interface-typed-true", 'F.Flags["vip"] || F.Flags["missing"]', 'true', 'f.Flags["vip"].(bool)'),
+    ("short-circuit-and-with-an-interface-typed-false", 'F.Flags["vip"] && F.Flags["missing"]', 'false', 'verif.Not(f.Flags["vip"].(bool))'),
+    ("short-circuit-or-with-an-interface-typed-true-skips-a-panicking-call", 'F.Flags["vip"] || F.Boom(7) > 0', 'true', 'f.Flags["vip"].(bool)'),
+    ("interface-typed-bool-as-a-plain-operand", 'F.Flags["vip"] || F.B', 'verif.Or(f.Flags["vip"].(bool), f.B)'),
 ]
+NEG_ASSUME = {t[0]: t[3] for t in neg if len(t) > 3}
+neg = [t[:3] for t in neg]
 
 PER = 30
 gofile = ['// Code generated by tools/gen_c05.py; DO NOT EDIT.', '', 'package zztier', '', 'import verif "github.com/hyperjumptech/grule-rule-engine/zzverif"', '',
@@ -203,7 +210,7 @@ for chunk_i in range(0, len(allc), PER):
         if tree is not None:
             divisors(tree, ds)
         nz = " && ".join("%s != 0" % go(d) for d in ds) or "true"
-        nzgo = "".join("verif.Assume(%s != 0); " % go(d) for d in reversed(ds)) + "return true"
+        nzgo = "".join("verif.Assume(%s != 0); " % go(d) for d in reversed(ds)) + ("verif.Assume(%s); " % NEG_ASSUME[tag] if tag in NEG_ASSUME else "") + "return true"
         kindn = {'int': 0, 'float': 1, 'bool': 2}[kind]
         ref = {'int': 'refI: func(f *Fact) int64 { return %s }', 'float': 'refF: func(f *Fact) float64 { return %s }', 'bool': 'refB: func(f *Fact) bool { return %s }'}[kind] % goexpr
         gofile.append('\t\t{tag: %s, rule: "%s", text: %s, kind: %d, %s, nz: func(f *Fact) bool { %s }},' % (
